@@ -5,8 +5,8 @@ from . import base
 ID = 'C04'
 LEVEL = 'exploration'
 PLAN = {
-    'quick': [('synth', 22000), ('synth_resolve', 5000), ('synth_cli', 6000), ('shipped', 640), ('shipped_cli', 240)],
-    'thorough': [('synth', 900000), ('synth_resolve', 200000), ('synth_cli', 200000), ('shipped', 30000), ('shipped_cli', 8000)],
+    'quick': [('synth', 22000), ('synth_resolve', 5000), ('synth_repair', 3000), ('synth_cli', 6000), ('shipped', 640), ('shipped_cli', 240)],
+    'thorough': [('synth', 900000), ('synth_resolve', 200000), ('synth_repair', 100000), ('synth_cli', 200000), ('shipped', 30000), ('shipped_cli', 8000)],
 }
 DEADLINE = {'quick': 200, 'thorough': 3300}
 PROBES = ['solve-called-again-after-failure', 'input-only-load-then-full', 'optional-line-demanded', 'form-loaded-on-demand', 'foreign-input-read-without-participation']
@@ -32,7 +32,16 @@ def evaluate(case, engine, acc=None):
             except (core.RunTimeout, core.BudgetExceeded):
                 pass
         run = simrun.execute_cli(case, {'prompt': case['prompt'], 'writeback': False, 'solution': to_file,
+                                        # (the earlier return's solution file is still there, at the same path)
+                                        'keep_old_solution': bool(case.get('cli_prelude')) and to_file,
                                         'interrupt': [case['refuse_at'], 'ctrlc'] if case.get('refuse_at') is not None else None})
+    elif engine == 'synth_repair':
+        # solve() aborts on an unreadable value, the caller repairs it, solve() again on the same Solver
+        run, case = simrun.execute_repair(case, case.get('reuse_seed', 0))
+        if run is None:
+            return []
+        if acc is not None:
+            acc.count('fault:solve-again-after-repaired-input')
     elif engine == 'synth_resolve':
         run = simrun.execute(case, again=case.get('again', []))
         if acc is not None and getattr(run, 'first_failed', False):
@@ -42,6 +51,9 @@ def evaluate(case, engine, acc=None):
         run = simrun.execute(case)
     r1 = simrun.model_for(case, run)
     fs = [f for f in simrun.judge(case, run, r1) if f['oracle'] in ORACLES]
+    if engine == 'synth_repair':
+        # the read history of the second call alone does not explain lines computed by the first: judged by the model only
+        fs = [f for f in fs if f['oracle'] != 'C04.history']
     for f in fs:
         f['property'] = ID
     if engine == 'synth_cli' and run.outcome == 'solved' and r1.verdict != 'abort':
@@ -98,6 +110,9 @@ def run_one(engine, seed, acc, tier):
         # success needs every input: supply or prompt for all of them
         case['prompt'] = True
         case['refuse_at'] = None
+    if engine == 'synth_repair':
+        case = gen.gen_case(seed, force_faults=rng.pick([['corrupt'], ['corrupt'], ['corrupt', 'dup']]))
+        case['reuse_seed'] = seed
     if engine == 'synth_resolve':
         # failures are what matters here: something unimplemented, missing or refused, then solve() again
         case = gen.gen_case(seed, force_faults=rng.pick([['notimpl'], ['notimpl', 'missing'], ['missing'], ['refuse'], ['cycle'], ['notimpl', 'dup']]))
